@@ -364,8 +364,8 @@ func schedCases(o *hx.Out) {
 		{3, "0:pull 1:pull 2:push:1 2:push:2 2:close"},
 		{3, "0:pull 1:pull 2:close 0:pull"},
 		{3, "0:push:1 2:close 1:pull 1:pull 1:pull"},
-		{3, "2:close 0:push:1 1:pull"},                   // push after close panics; the queue stays usable
-		{3, "0:push:1 2:close 0:push:2 1:pull 1:pull"},   // remaining item is handed out, then closure
+		{3, "2:close 0:push:1 1:pull"},                 // push after close panics; the queue stays usable
+		{3, "0:push:1 2:close 0:push:2 1:pull 1:pull"}, // remaining item is handed out, then closure
 		{4, "0:pull 1:pull 2:pull 3:push:1 3:push:2 3:push:3 3:push:4 0:pull 3:close 1:pull"},
 		{3, "2:close 2:close 0:pull"},
 		{3, "0:pull 2:close 2:close 1:push:3 0:pull"},
@@ -988,7 +988,11 @@ type nbtC struct {
 	B     []byte           `nbt:"b"`
 }
 
-func freshType(round, k int) reflect.Type {
+func freshType(round, k int) reflect.Type { return freshTypeCase(round, k, false) }
+
+// freshTypeCase: upper = the same fields with upper-case tag names (documents written with it match the
+// fields of the lower-case type only through the decoder's case-insensitive fallback)
+func freshTypeCase(round, k int, upper bool) reflect.Type {
 	var fs []reflect.StructField
 	for i := 0; i <= k%5; i++ {
 		var t reflect.Type
@@ -1003,7 +1007,7 @@ func freshType(round, k int) reflect.Type {
 			t = reflect.TypeOf([]int32(nil))
 		}
 		fs = append(fs, reflect.StructField{Name: fmt.Sprintf("F%d_%d_%d", round, k, i), Type: t,
-			Tag: reflect.StructTag(fmt.Sprintf(`nbt:"f%d_%d"`, k, i))})
+			Tag: reflect.StructTag(fmt.Sprintf(`nbt:"%s%d_%d"`, map[bool]string{false: "f", true: "F"}[upper], k, i))})
 	}
 	return reflect.StructOf(fs)
 }
@@ -1057,6 +1061,27 @@ func nbtStress(o *hx.Out) {
 				if !reflect.DeepEqual(back.Elem().Interface(), v.Elem().Interface()) {
 					fails[g] = fmt.Sprintf("round trip differs: %v vs %v", back.Elem().Interface(), v.Elem().Interface())
 					return
+				}
+				// the same value written under names that differ from the field names in CASE only: the decoder
+				// finds the fields through its case-insensitive fallback, concurrently for one cached type
+				ut := freshTypeCase(round, g%len(types), true)
+				uv := reflect.New(ut)
+				fillValue(uv.Elem(), g%len(types))
+				ub, err := nbt.Marshal(uv.Interface())
+				if err != nil {
+					fails[g] = "marshal upper: " + err.Error()
+					return
+				}
+				for rep := 0; rep < 4; rep++ {
+					back2 := reflect.New(t)
+					if err := nbt.Unmarshal(ub, back2.Interface()); err != nil {
+						fails[g] = "unmarshal case-insensitive: " + err.Error()
+						return
+					}
+					if !reflect.DeepEqual(back2.Elem().Interface(), v.Elem().Interface()) {
+						fails[g] = fmt.Sprintf("case-insensitive decoding differs: %v vs %v", back2.Elem().Interface(), v.Elem().Interface())
+						return
+					}
 				}
 				// static types with distinct data per goroutine
 				c := nbtC{Name: fmt.Sprint("g", g), Items: []nbtA{{int32(g), "a"}, {int32(g + 1), "b"}}, M: map[string]int32{"k": int32(g)}, B: []byte{byte(g), 1, 2}}
@@ -1392,7 +1417,7 @@ func marshalStress(o *hx.Out) {
 			for it := 0; it < iters; it++ {
 				payload := pattern(g, it, 1+(g*7+it*13)%300)
 				var want bytes.Buffer
-				_, _ = pk.VarInt(int32(g*1000+it)).WriteTo(&want)
+				_, _ = pk.VarInt(int32(g*1000 + it)).WriteTo(&want)
 				_, _ = pk.ByteArray(payload).WriteTo(&want)
 				p := pk.Marshal(int32(g), pk.VarInt(int32(g*1000+it)), pk.ByteArray(payload))
 				all[g] = append(all[g], kept{p, append([]byte(nil), want.Bytes()...)})
@@ -1422,7 +1447,9 @@ type kaModelClient struct {
 	disc *[]string
 }
 
-func (c *kaModelClient) SendKeepAlive(id int64) { *c.sent = append(*c.sent, fmt.Sprintf("%d:%d", c.id, id)) }
+func (c *kaModelClient) SendKeepAlive(id int64) {
+	*c.sent = append(*c.sent, fmt.Sprintf("%d:%d", c.id, id))
+}
 func (c *kaModelClient) SendDisconnect(chat.Message) {
 	*c.disc = append(*c.disc, strconv.Itoa(c.id))
 }
